@@ -169,6 +169,7 @@ var ctxs = []ctx{
 	{"tuple", "func twoCTX(n Int) (Int, Int) { return n, n + CALL(1) }", `a, b := CALL(1), CALL(2); a, b = b, a+CALL(3); verif.TrI("ab", a*10+b); x, y := twoCTX(CALL(4)); verif.TrI("xy", x*10+y); var i interface{} = CALL(5); v, ok := i.(Int); if ok { verif.TrI("v", v) }`},
 	{"returns", "func r2CTX() (Int, Int) { return CALL(1), CALL(2) }\nfunc r1CTX(k Int) Int { if k == 0 { return CALL(3) }; for i := 0; i < 2; i++ { if Int(i) == k-1 { return CALL(4) + Int(i) } }; return -1 }\nfunc rcCTX() interface{} { return CALL(5) }", `a, b := r2CTX(); verif.TrI("ab", a*10+b); verif.TrI("r0", r1CTX(0)); verif.TrI("r1", r1CTX(1)); verif.TrI("r2", r1CTX(2)); verif.TrI("r5", r1CTX(5)); verif.TrI("rc", rcCTX().(Int))`},
 	{"namedresult", "func nrCTX() (r Int, s string) { defer func() { r += CALL(5); s += \"d\" }(); r = CALL(1); s = \"b\"; return r + CALL(2), s + \"r\" }\nfunc nr2CTX() (r Int) { defer func() { if e := recover(); e != nil { r = CALL(9) } }(); r = CALL(1); panic(\"p\") }", `r, s := nrCTX(); verif.TrI("r"+s, r); verif.TrI("nr2", nr2CTX())`},
+	{"returnlocal", "func rl1CTX() Int { x := Int(42); defer func() { x = -1; CALL(1); x = -2 }(); return x }\nfunc rl2CTX(p Int) (Int, string) { s := \"a\"; defer func() { p += 100; s += \"d\"; CALL(2); p += 1000 }(); defer func() { CALL(3); p++ }(); return p, s }\nfunc rl3CTX() Int { defer func() { CALL(4) }(); return 7 }\nfunc rl4CTX() [2]Int { a := [2]Int{1, 2}; defer func() { a[0] = 9; CALL(5); a[1] = 8 }(); return a }\nfunc rl5CTX() *Int { x := Int(5); p := &x; defer func() { p = nil; CALL(6) }(); return p }\ntype rlSCTX struct{ v Int }\nfunc rl6CTX() rlSCTX { s := rlSCTX{1}; defer func() { s.v = 2; CALL(7); s.v = 3 }(); return s }\nfunc rl7CTX(k Int) Int { for i := Int(0); i < 3; i++ { if i == k { defer func() { i = 50; CALL(8) }(); return i } }; return -1 }\nfunc rl8CTX() (Int, Int) { x, y := Int(1), Int(2); defer func() { x, y = y, x; CALL(9) }(); return x, y }", `verif.TrI("rl1", rl1CTX()); p, s := rl2CTX(5); verif.TrI("rl2"+s, p); verif.TrI("rl3", rl3CTX()); a := rl4CTX(); verif.TrI("rl4", a[0]*10+a[1]); verif.TrI("rl5", *rl5CTX()); verif.TrI("rl6", rl6CTX().v); verif.TrI("rl7", rl7CTX(1)); x, y := rl8CTX(); verif.TrI("rl8", x*10+y)`},
 	{"defers", "", `func() { defer func() { verif.Tr("d1"); CALL(1); verif.Tr("d1e") }(); defer func() { verif.Tr("d2"); CALL(2); verif.Tr("d2e") }(); defer verif.TrI("arg", CALL(3)); verif.Tr("body"); CALL(4) }(); verif.Tr("after")`},
 	{"deferpanic", "", `func() { defer func() { verif.Tr("outer"); r := recover(); if r != nil { verif.Tr("rec:" + r.(string)) }; CALL(3) }(); func() { defer func() { verif.Tr("d1"); CALL(1); verif.Tr("d1e") }(); defer func() { CALL(2); verif.Tr("d2e") }(); verif.Tr("body"); panic("p") }(); verif.Tr("notreached") }(); verif.Tr("after")`},
 	{"deferrecover", "", `x := func() (r Int) { defer func() { CALL(1); e := recover(); CALL(2); if e != nil { r = 7 }; CALL(3) }(); CALL(4); var m map[Int]Int; m[1] = 1; return 1 }(); verif.TrI("x", x); y := func() (r Int) { defer func() { recover() }(); defer func() { CALL(5); panic("second") }(); panic("first") }(); verif.TrI("y", y)`},
